@@ -125,7 +125,7 @@ func NewSendType(left, right SessionType, mode Modality) *SendType {
 func (q *SendType) String() string {
 	var buffer bytes.Buffer
 	// buffer.WriteString("(")
-	buffer.WriteString(q.Left.String())
+	buffer.WriteString(stringWithBrackets(q.Left, q.Left.String()))
 	buffer.WriteString(" * ")
 	buffer.WriteString(q.Right.String())
 	// buffer.WriteString(")")
@@ -175,7 +175,7 @@ func NewReceiveType(left, right SessionType, mode Modality) *ReceiveType {
 func (q *ReceiveType) String() string {
 	var buffer bytes.Buffer
 	// buffer.WriteString("(")
-	buffer.WriteString(q.Left.String())
+	buffer.WriteString(stringWithBrackets(q.Left, q.Left.String()))
 	buffer.WriteString(" -* ")
 	buffer.WriteString(q.Right.String())
 	// buffer.WriteString(")")
@@ -969,4 +969,13 @@ func NewOptionInitial(label string, session_type SessionTypeInitial) *OptionInit
 		Label:        label,
 		Session_type: session_type,
 	}
+}
+
+// Adds brackets around the left operand of a binary type when needed (binary operators and shifts are right associative)
+func stringWithBrackets(t SessionType, s string) string {
+	switch t.(type) {
+	case *SendType, *ReceiveType, *UpType, *DownType:
+		return "(" + s + ")"
+	}
+	return s
 }
